@@ -340,7 +340,10 @@ class Interp:
         r.cls = cls
         new = cls.lookup('__new__')
         if new is not UNDEF:
-            raise Unsupported('__new__ of %s' % cls.name)
+            # user-defined __new__ (e.g. the Null singleton): run it; __init__ follows only on an instance of the class
+            r = self.call(new, [ClassRef(cls)] + list(args), kwargs)
+            if not (isinstance(r, Ref) and r.kind == 'obj' and r.cls is not None and cls in r.cls.mro()):
+                return r
         init = cls.lookup('__init__')
         if init is not UNDEF:
             self.call(init, [r] + list(args), kwargs)
